@@ -116,6 +116,10 @@ func runC04(t *kernel.Tape, opt core.Opts) *core.Outcome {
 	} else if variant > 2 && t.PlanBool(40) {
 		nAny = decorateAnyTypes(t, p, 25, false)
 	}
+	nInKey := 0
+	if variant > 2 && t.PlanBool(40) {
+		nInKey = decorateInputKeys(t, p, 60) // successors of nodes with an output key may read it with an input key
+	}
 	if variant > 2 && t.PlanBool(30) {
 		// some nodes carry a progress counter (an integer: the last chunk wins)
 		for _, l := range lambdas(p, "") {
@@ -167,6 +171,7 @@ func runC04(t *kernel.Tape, opt core.Opts) *core.Outcome {
 		return o
 	}
 	o.Stat("any_typed_outputs", nAny)
+	o.Stat("input_keyed_nodes", nInKey)
 	results := make([]*CallResult, 4)
 	calls := make([]*Call, 4)
 	s.Go("caller0", func() {
@@ -573,7 +578,7 @@ func tailOf(s string, n int) string {
 func init() {
 	core.Register(&core.Profile{
 		ID: "C04", Engine: "graphsim", Quick: 1500, Thorough: 40000, ThoroughSeeds: 3, Run: runC04,
-		Rule: "each run draws a plan in any mode (native paradigm subset per node, chunkings incl. empty chunks, pipe or array streams, lazily reading transforms, state handlers in value and stream form, output keys, field mappings, stream branches reading a prefix), optionally one failing node (error, panic, error item mid-stream), calls Invoke, Stream, Collect and Transform in a drawn order on the same compiled object, and one schedule; oracle: every paradigm equals the reference model and the others; failures in all four; 1 in 20 plans allows duplicate-key fan-in, 1 in 20 a mapping from a missing key (reported separately); 2 in 5 plans type some lambda outputs and nested graphs statically as any (runtime type checks on edges and before branches), 1 in 20 lets such an output take part in a fan-in (known finding); 1 plan in 20 has a branch condition that returns an error; some nodes carry an integer progress counter whose interim value is streamed before the final one (last chunk wins)",
+		Rule: "each run draws a plan in any mode (native paradigm subset per node, chunkings incl. empty chunks, pipe or array streams, lazily reading transforms, state handlers in value and stream form, output keys, field mappings, stream branches reading a prefix), optionally one failing node (error, panic, error item mid-stream), calls Invoke, Stream, Collect and Transform in a drawn order on the same compiled object, and one schedule; oracle: every paradigm equals the reference model and the others; failures in all four; 1 in 20 plans allows duplicate-key fan-in, 1 in 20 a mapping from a missing key (reported separately); 2 in 5 plans type some lambda outputs and nested graphs statically as any (runtime type checks on edges and before branches), 1 in 20 lets such an output take part in a fan-in (known finding); 1 plan in 20 has a branch condition that returns an error; some nodes carry an integer progress counter whose interim value is streamed before the final one (last chunk wins); successors of nodes with an output key may read it with an input key",
 		Real: graphReal, Stub: graphStub,
 		Faults: []string{"node error", "node panic", "error item mid-stream", "chunk arrival interleaving", "producer/consumer order"},
 	})
